@@ -16,6 +16,7 @@ import Driver.OpsClient
 import Driver.OpsHeader
 import Driver.OpsJson
 import Driver.OpsBundle
+import Driver.OpsHostile
 
 namespace Driver
 open Macaroon
@@ -73,7 +74,7 @@ def evalOp : Sx → Option String
 def evalLine (line : String) : String :=
   match Sx.parse line with
   | none => "bad-parse"
-  | some sx => ((evalOp sx) <|> (evalOpWire sx) <|> (evalOpToken sx) <|> (evalOpScope sx) <|> (TPIO.evalOpTP sx) <|> (ClientIO.evalOpClient sx) <|> (evalOpHeader sx) <|> (evalOpJson sx) <|> (BundleIO.evalOpBundle sx)).getD "bad-op"
+  | some sx => ((evalOp sx) <|> (evalOpWire sx) <|> (evalOpToken sx) <|> (evalOpScope sx) <|> (TPIO.evalOpTP sx) <|> (ClientIO.evalOpClient sx) <|> (evalOpHeader sx) <|> (evalOpJson sx) <|> (BundleIO.evalOpBundle sx) <|> (evalOpHostile sx)).getD "bad-op"
 
 partial def loop (h : IO.FS.Stream) (out : IO.FS.Stream) : IO Unit := do
   let line ← h.getLine
